@@ -6085,7 +6085,8 @@ impl BytecodeVM {
                 JsValue::String(k) if k.as_str() == "length" => Ok(Guarded::unguarded(
                     JsValue::Number(s.as_str().chars().count() as f64),
                 )),
-                JsValue::Number(n) => {
+                // Only a non-negative integer is an index into the string
+                JsValue::Number(n) if *n >= 0.0 && n.fract() == 0.0 => {
                     let idx = *n as usize;
                     if let Some(c) = s.as_str().chars().nth(idx) {
                         return Ok(Guarded::unguarded(JsValue::String(JsString::from(
